@@ -295,6 +295,8 @@ pub const C10: ConcCheck = ConcCheck {
 /// repaired defect F6 (a helper joining the next resize generation) shows up about once per
 /// thousand executions
 pub const C10L: ConcCheck = ConcCheck { sub: "resize-long", mix: Mix::Long, max_threads: 8, max_ops: 16, ..C10 };
+pub const C10H: ConcCheck = ConcCheck { sub: "resize-helpers", mix: Mix::Helpers, max_threads: 4, max_ops: 3, ..C10 };
+pub const C10T: ConcCheck = ConcCheck { sub: "resize-treemove", mix: Mix::TreeMove, max_threads: 3, max_ops: 3, ..C10 };
 
 #[derive(Clone, Debug, Serialize, Deserialize)]
 struct StampCase {
@@ -350,8 +352,10 @@ fn c10_shard(ctx: &Ctx, out: &mut ShardOut) {
     let pool = Pool::new();
     let b = budget_for(ctx.tier, ctx.shard_seed(81));
     C10.run(ctx, &pool, 10, ctx.share(ctx.by_tier(320, 3_000)) as u32, &b, out);
-    let lb = Budget { single: 0, double: 0, coarse2: 0, tapes: ctx.by_tier(40, 200) as usize, tape_seed: ctx.shard_seed(91) };
+    let lb = Budget { single: 0, double: 0, coarse2: 0, tapes: ctx.by_tier(40, 200) as usize, tape_seed: ctx.shard_seed(91), triple: 0 };
     C10L.run(ctx, &pool, 18, ctx.share(ctx.by_tier(160, 4_000)) as u32, &lb, out);
+    C10H.run(ctx, &pool, 19, ctx.share(ctx.by_tier(160, 3_000)) as u32, &super::concchecks::helpers_budget(ctx.tier, ctx.shard_seed(97)), out);
+    C10T.run(ctx, &pool, 20, ctx.share(ctx.by_tier(128, 2_000)) as u32, &b, out);
     // sequential part: growth happens, exactly doubling, threshold 0.75 n afterwards
     let or = crate::seq::Oracles { growth: true, quiescent: true, ..Default::default() };
     drive(ctx, "seq-growth", ctx.shard_seed(16), ctx.share(ctx.by_tier(1500, 40_000)) as u32, seq_case_strategy(false, 120), out, |c| {
@@ -372,7 +376,9 @@ fn c10_shard(ctx: &Ctx, out: &mut ShardOut) {
 }
 fn c10_replay(sub: &str, case: &Value) -> Result<(), CaseFail> {
     match sub {
-        "resize-long" => C10L.replay(&Pool::new(), case, &Budget { single: 0, double: 0, coarse2: 0, tapes: 200, tape_seed: 1 }),
+        "resize-long" => C10L.replay(&Pool::new(), case, &Budget { single: 0, double: 0, coarse2: 0, tapes: 200, tape_seed: 1, triple: 0 }),
+        "resize-helpers" => C10H.replay(&Pool::new(), case, &super::concchecks::helpers_budget(Tier::Thorough, 1)),
+        "resize-treemove" => C10T.replay(&Pool::new(), case, &budget_for(Tier::Thorough, 1)),
         "stamps" => check_stamps().map(|_| ()).map_err(|m| CaseFail { prop: "C10".into(), msg: format!("[C10] {}", m) }),
         "seq-growth" => {
             let c: SeqCase = serde_json::from_value(case.clone()).map_err(|e| CaseFail { prop: "C10".into(), msg: format!("bad replay file: {}", e) })?;
@@ -512,8 +518,8 @@ pub const C12C: ConcCheck = ConcCheck { sub: "probe-readers", mix: Mix::Readers,
 fn probe_budget(tier: Tier, seed: u64) -> Budget {
     // the probes already visit every step of the base schedule; preemptions add writer/writer interleavings
     match tier {
-        Tier::Quick => Budget { single: 12, double: 0, coarse2: 40, tapes: 4, tape_seed: seed },
-        Tier::Thorough => Budget { single: 150, double: 40, coarse2: 75, tapes: 20, tape_seed: seed },
+        Tier::Quick => Budget { single: 12, double: 0, coarse2: 40, tapes: 4, tape_seed: seed, triple: 0 },
+        Tier::Thorough => Budget { single: 150, double: 40, coarse2: 75, tapes: 20, tape_seed: seed, triple: 0 },
     }
 }
 
@@ -608,23 +614,23 @@ fn c07_shard(ctx: &Ctx, out: &mut ShardOut) {
     C07B.run(ctx, &pool, 7, ctx.share(ctx.by_tier(160, 1_500)) as u32, &b, out);
     C07R.run(ctx, &pool, 8, ctx.share(ctx.by_tier(160, 1_500)) as u32, &b, out);
     let pb = match ctx.tier {
-        Tier::Quick => Budget { single: 40, double: 8, coarse2: 40, tapes: 4, tape_seed: ctx.shard_seed(84) },
-        Tier::Thorough => Budget { single: 400, double: 400, coarse2: 200, tapes: 20, tape_seed: ctx.shard_seed(84) },
+        Tier::Quick => Budget { single: 40, double: 8, coarse2: 40, tapes: 4, tape_seed: ctx.shard_seed(84), triple: 0 },
+        Tier::Thorough => Budget { single: 400, double: 400, coarse2: 200, tapes: 20, tape_seed: ctx.shard_seed(84), triple: 0 },
     };
     C07C.run(ctx, &pool, 9, ctx.share(ctx.by_tier(96, 400)) as u32, &pb, out);
     C07D.run(ctx, &pool, 10, ctx.share(ctx.by_tier(64, 300)) as u32, &pb, out);
     let db = match ctx.tier {
-        Tier::Quick => Budget { single: 30, double: 0, coarse2: 260, tapes: 2, tape_seed: ctx.shard_seed(88) },
-        Tier::Thorough => Budget { single: 300, double: 300, coarse2: 3000, tapes: 20, tape_seed: ctx.shard_seed(88) },
+        Tier::Quick => Budget { single: 30, double: 0, coarse2: 260, tapes: 2, tape_seed: ctx.shard_seed(88), triple: 0 },
+        Tier::Thorough => Budget { single: 300, double: 300, coarse2: 3000, tapes: 20, tape_seed: ctx.shard_seed(88), triple: 0 },
     };
     C07E.run(ctx, &pool, 11, ctx.share(ctx.by_tier(48, 300)) as u32, &db, out);
     C07F.run(ctx, &pool, 12, ctx.share(ctx.by_tier(48, 1_000)) as u32, &b, out);
-    let lb = Budget { single: 0, double: 0, coarse2: 0, tapes: ctx.by_tier(16, 100) as usize, tape_seed: ctx.shard_seed(97) };
+    let lb = Budget { single: 0, double: 0, coarse2: 0, tapes: ctx.by_tier(16, 100) as usize, tape_seed: ctx.shard_seed(97), triple: 0 };
     C07L.run(ctx, &pool, 13, ctx.share(ctx.by_tier(96, 2_000)) as u32, &lb, out);
 }
 fn c07_replay(sub: &str, case: &Value) -> Result<(), CaseFail> {
     let b = budget_for(Tier::Thorough, 1);
-    let pb = Budget { single: 400, double: 400, coarse2: 200, tapes: 20, tape_seed: 1 };
+    let pb = Budget { single: 400, double: 400, coarse2: 200, tapes: 20, tape_seed: 1, triple: 0 };
     match sub {
         "iter-seq" => {
             let c: IterCase = serde_json::from_value(case.clone()).map_err(|e| CaseFail { prop: "C07".into(), msg: format!("bad replay file: {}", e) })?;
@@ -633,9 +639,9 @@ fn c07_replay(sub: &str, case: &Value) -> Result<(), CaseFail> {
         "iter-resize" => C07R.replay(&Pool::new(), case, &b),
         "iter-probe" => C07C.replay(&Pool::new(), case, &pb),
         "iter-probe-resize" => C07D.replay(&Pool::new(), case, &pb),
-        "iter-probe-drain" => C07E.replay(&Pool::new(), case, &Budget { single: 300, double: 300, coarse2: 3000, tapes: 20, tape_seed: 1 }),
+        "iter-probe-drain" => C07E.replay(&Pool::new(), case, &Budget { single: 300, double: 300, coarse2: 3000, tapes: 20, tape_seed: 1, triple: 0 }),
         "iter-drain" => C07F.replay(&Pool::new(), case, &b),
-        "iter-long" => C07L.replay(&Pool::new(), case, &Budget { single: 0, double: 0, coarse2: 0, tapes: 100, tape_seed: 1 }),
+        "iter-long" => C07L.replay(&Pool::new(), case, &Budget { single: 0, double: 0, coarse2: 0, tapes: 100, tape_seed: 1, triple: 0 }),
         _ => C07B.replay(&Pool::new(), case, &b),
     }
 }
@@ -926,6 +932,8 @@ pub const C03R: ConcCheck = ConcCheck { sub: "refs-resize", mix: Mix::Resize, ..
 pub const C03P: ConcCheck = ConcCheck { sub: "refs-probe", mix: Mix::Readers, max_threads: 2, mk_probe: Some(c03_probe), ..C03 };
 pub const C03L: ConcCheck = ConcCheck { sub: "refs-long", mix: Mix::Long, max_threads: 8, max_ops: 10, ..C03 };
 pub const C03M: ConcCheck = ConcCheck { sub: "refs-long-readers", mix: Mix::LongReaders, max_threads: 5, max_ops: 8, ..C03 };
+pub const C03H: ConcCheck = ConcCheck { sub: "refs-helpers", mix: Mix::Helpers, max_threads: 4, max_ops: 3, ..C03 };
+pub const C03T: ConcCheck = ConcCheck { sub: "refs-treemove", mix: Mix::TreeMove, max_threads: 3, max_ops: 3, ..C03 };
 
 const C03_OR: crate::seq::Oracles = crate::seq::Oracles { returns: true, quiescent: false, ledger: true, canary: true, capacity: false, cmp_bound: false, growth: false };
 
@@ -984,9 +992,11 @@ fn c03_shard(ctx: &Ctx, out: &mut ShardOut) {
     C03R.run(ctx, &pool, 5, ctx.share(ctx.by_tier(96, 1_000)) as u32, &b, out);
     let pb = probe_budget(ctx.tier, ctx.shard_seed(86));
     C03P.run(ctx, &pool, 6, ctx.share(ctx.by_tier(64, 400)) as u32, &pb, out);
-    let lb = Budget { single: 0, double: 0, coarse2: 0, tapes: ctx.by_tier(16, 100) as usize, tape_seed: ctx.shard_seed(95) };
+    let lb = Budget { single: 0, double: 0, coarse2: 0, tapes: ctx.by_tier(16, 100) as usize, tape_seed: ctx.shard_seed(95), triple: 0 };
     C03L.run(ctx, &pool, 7, ctx.share(ctx.by_tier(64, 1_500)) as u32, &lb, out);
     C03M.run(ctx, &pool, 8, ctx.share(ctx.by_tier(64, 1_500)) as u32, &lb, out);
+    C03T.run(ctx, &pool, 9, ctx.share(ctx.by_tier(96, 1_000)) as u32, &b, out);
+    C03H.run(ctx, &pool, 10, ctx.share(ctx.by_tier(64, 800)) as u32, &super::concchecks::helpers_budget(ctx.tier, ctx.shard_seed(98)), out);
     let _ = crate::alloc::drain_and_check();
     crate::alloc::enable(false);
 }
@@ -999,10 +1009,12 @@ fn c03_replay(sub: &str, case: &Value) -> Result<(), CaseFail> {
             crate::seq::run_map_case(&c, C03_OR).map(|_| ()).map_err(|f| CaseFail { prop: "C03".into(), msg: format!("[{}] step {}: {}", f.prop, f.step, f.msg) }).and_then(|_| quarantine_verdict("the replayed history"))
         }
         "refs-perkey" => C03K.replay(&Pool::new(), case, &b),
+        "refs-treemove" => C03T.replay(&Pool::new(), case, &b),
+        "refs-helpers" => C03H.replay(&Pool::new(), case, &super::concchecks::helpers_budget(Tier::Thorough, 1)),
         "refs-resize" => C03R.replay(&Pool::new(), case, &b),
         "refs-probe" => C03P.replay(&Pool::new(), case, &probe_budget(Tier::Thorough, 1)),
-        "refs-long-readers" => C03M.replay(&Pool::new(), case, &Budget { single: 0, double: 0, coarse2: 0, tapes: 100, tape_seed: 1 }),
-        "refs-long" => C03L.replay(&Pool::new(), case, &Budget { single: 0, double: 0, coarse2: 0, tapes: 100, tape_seed: 1 }),
+        "refs-long-readers" => C03M.replay(&Pool::new(), case, &Budget { single: 0, double: 0, coarse2: 0, tapes: 100, tape_seed: 1, triple: 0 }),
+        "refs-long" => C03L.replay(&Pool::new(), case, &Budget { single: 0, double: 0, coarse2: 0, tapes: 100, tape_seed: 1, triple: 0 }),
         _ => C03.replay(&Pool::new(), case, &b),
     };
     crate::alloc::enable(false);
@@ -1043,7 +1055,7 @@ fn c15_shard(ctx: &Ctx, out: &mut ShardOut) {
     C15.run(ctx, &pool, 15, ctx.share(ctx.by_tier(1600, 24_000)) as u32, &b, out);
     C15R.run(ctx, &pool, 16, ctx.share(ctx.by_tier(320, 8_000)) as u32, &b, out);
     C15I.run(ctx, &pool, 17, ctx.share(ctx.by_tier(320, 8_000)) as u32, &b, out);
-    let lb = Budget { single: 0, double: 0, coarse2: 0, tapes: ctx.by_tier(16, 100) as usize, tape_seed: ctx.shard_seed(96) };
+    let lb = Budget { single: 0, double: 0, coarse2: 0, tapes: ctx.by_tier(16, 100) as usize, tape_seed: ctx.shard_seed(96), triple: 0 };
     C15L.run(ctx, &pool, 18, ctx.share(ctx.by_tier(64, 1_500)) as u32, &lb, out);
 }
 fn c15_replay(sub: &str, case: &Value) -> Result<(), CaseFail> {
@@ -1051,7 +1063,7 @@ fn c15_replay(sub: &str, case: &Value) -> Result<(), CaseFail> {
     match sub {
         "hb-resize" => C15R.replay(&Pool::new(), case, &b),
         "hb-readers" => C15I.replay(&Pool::new(), case, &b),
-        "hb-long" => C15L.replay(&Pool::new(), case, &Budget { single: 0, double: 0, coarse2: 0, tapes: 100, tape_seed: 1 }),
+        "hb-long" => C15L.replay(&Pool::new(), case, &Budget { single: 0, double: 0, coarse2: 0, tapes: 100, tape_seed: 1, triple: 0 }),
         _ => C15.replay(&Pool::new(), case, &b),
     }
 }
